@@ -94,7 +94,8 @@ func refGCM(secret, salt []byte) (cipher.AEAD, []byte) {
 
 func secretGen(t *rapid.T) []byte {
 	// lengths around the MD5 block boundaries of the key derivation input (16-byte digest + secret + 8-byte salt)
-	n := rapid.OneOf(rapid.IntRange(0, 40), rapid.IntRange(0, 140), rapid.SampledFrom([]int{0, 1, 16, 31, 32, 39, 40, 41, 47, 48, 49, 55, 56, 57, 63, 64, 65, 103, 104, 119, 120, 128})).Draw(t, "slen")
+	n := rapid.OneOf(rapid.IntRange(0, 40), rapid.IntRange(0, 140), rapid.SampledFrom([]int{0, 1, 16, 31, 32, 39, 40, 41, 47, 48, 49, 55, 56, 57, 63, 64, 65, 103, 104, 119, 120, 128}),
+		rapid.SampledFrom([]int{231, 232, 233, 239, 240, 241, 255, 256, 257, 300, 511, 512, 513, 1000, 4096, 70000}), rapid.IntRange(141, 700)).Draw(t, "slen")
 	return g.BytesLen(n).Draw(t, "secret")
 }
 
@@ -522,6 +523,7 @@ type streamCase struct {
 	EncEOF, DecEOF     bool
 	FaultSide, FaultAt int // side: 0 none, 1 enc reader, 2 enc writer, 3 dec reader, 4 dec writer
 	StrSecret          bool
+	Direct             int // bit 0: plaintext comes from a *bytes.Reader (io.WriterTo: one Write with everything), bit 1: ciphertext goes to a *bytes.Buffer (io.ReaderFrom), bits 2, 3: the same for decryption
 }
 
 func genStream(t *rapid.T) streamCase {
@@ -541,6 +543,7 @@ func genStream(t *rapid.T) streamCase {
 			c.DecPlan[i] = 1
 		}
 	}
+	c.Direct = rapid.SampledFrom([]int{0, 0, 0, 1, 2, 4, 8, 5, 15, 3, 12}).Draw(t, "direct")
 	if rapid.IntRange(0, 2).Draw(t, "fault") == 0 {
 		c.FaultSide = rapid.IntRange(1, 4).Draw(t, "side")
 		c.FaultAt = rapid.IntRange(0, len(c.Plain)+17).Draw(t, "at")
@@ -571,7 +574,16 @@ func runStream(c streamCase, r *pb.Rec) error {
 	}
 	er := &planReader{data: append([]byte(nil), c.Plain...), plan: append([]int(nil), c.EncPlan...), eofJoin: c.EncEOF, failAt: fa(1)}
 	ew := &planWriter{failAt: fa(2)}
-	err := encStream(ew, er, c.Secret, c.StrSecret)
+	var encSrc io.Reader = er
+	var encDst io.Writer = ew
+	var encBuf bytes.Buffer
+	if c.Direct&1 != 0 && c.FaultSide != 1 {
+		encSrc = bytes.NewReader(append([]byte(nil), c.Plain...)) // io.Copy hands the whole plaintext to one Write
+	}
+	if c.Direct&2 != 0 && c.FaultSide != 2 {
+		encDst = &encBuf
+	}
+	err := encStream(encDst, encSrc, c.Secret, c.StrSecret)
 	if c.FaultSide == 1 || c.FaultSide == 2 {
 		hit := er.injected || ew.injected
 		if hit && err == nil {
@@ -589,6 +601,9 @@ func runStream(c streamCase, r *pb.Rec) error {
 		return fmt.Errorf("EncryptStreamTo: %v", err)
 	}
 	ct := ew.buf.Bytes()
+	if encDst != io.Writer(ew) {
+		ct = encBuf.Bytes()
+	}
 	if len(ct) != 16+len(c.Plain) || string(ct[:8]) != "Salted__" {
 		return fmt.Errorf("stream framing wrong: %d bytes for %d plaintext bytes, header %q", len(ct), len(c.Plain), ct[:min(8, len(ct))])
 	}
@@ -601,7 +616,16 @@ func runStream(c streamCase, r *pb.Rec) error {
 	}
 	dr := &planReader{data: append([]byte(nil), ct...), plan: append([]int(nil), c.DecPlan...), eofJoin: c.DecEOF, failAt: fa(3)}
 	dw := &planWriter{failAt: fa(4)}
-	err = decStream(dw, dr, c.Secret, c.StrSecret)
+	var decSrc io.Reader = dr
+	var decDst io.Writer = dw
+	var decBuf bytes.Buffer
+	if c.Direct&4 != 0 && c.FaultSide != 3 {
+		decSrc = bytes.NewReader(append([]byte(nil), ct...))
+	}
+	if c.Direct&8 != 0 && c.FaultSide != 4 {
+		decDst = &decBuf
+	}
+	err = decStream(decDst, decSrc, c.Secret, c.StrSecret)
 	if c.FaultSide == 3 || c.FaultSide == 4 {
 		hit := dr.injected || dw.injected
 		if hit && err == nil {
@@ -618,9 +642,18 @@ func runStream(c streamCase, r *pb.Rec) error {
 	} else if err != nil {
 		return fmt.Errorf("DecryptStreamTo(plan %v, eofWithData %v): %v", c.DecPlan, c.DecEOF, err)
 	}
-	if !bytes.Equal(dw.buf.Bytes(), c.Plain) {
-		return fmt.Errorf("DecryptStreamTo(EncryptStreamTo(p)) = %x want %x", dw.buf.Bytes(), c.Plain)
+	got := dw.buf.Bytes()
+	if decDst != io.Writer(dw) {
+		got = decBuf.Bytes()
 	}
+	if !bytes.Equal(got, c.Plain) {
+		i := 0
+		for i < len(got) && i < len(c.Plain) && got[i] == c.Plain[i] {
+			i++
+		}
+		return fmt.Errorf("DecryptStreamTo(EncryptStreamTo(p)) differs from p at byte %d (%d bytes returned, %d expected; direct-mode bits %d)", i, len(got), len(c.Plain), c.Direct)
+	}
+	r.ClassIf(c.Direct != 0 && len(c.Plain) > 32768, "more than 32 KiB handed over in one Write/ReadFrom")
 	short := false
 	sum := 0
 	for _, n := range c.DecPlan {
@@ -764,8 +797,8 @@ func init() {
 	pb.Register("gcm_envelope", pb.Options{Base: 5000, Required: []string{"magic byte flipped", "salt byte flipped", "ciphertext byte flipped", "tag byte flipped", "secret differs", "aad differs", "truncated", "secret buffer mutated in place"},
 		Rule: "GCM round trip and interop with an independent builder; corruption applied at the decoded-byte level (bit flip in magic/salt/ciphertext/tag), different secret, different AAD, truncated hex text, garbage; oracle: decrypt fails for every difference; non-trivial = corruption case"},
 		genGCM, runGCM)
-	pb.Register("stream", pb.Options{Base: 5000, Required: []string{"plaintext larger than the copy buffer", "short header read", "EOF with data", "header arrives with EOF", "(0,nil) first read", "I/O fault during encryption", "I/O fault during decryption"},
-		Rule: "EncryptStreamTo/DecryptStreamTo through readers following drawn chunk plans (1-byte reads, 15/16/17-byte first chunk, (0,nil) reads, data+EOF together) and recording writers; injected I/O errors at a drawn byte on each of the four sides; oracles: header+AES-256-CTR reference, round trip equality, fault => error (never a panic), no fault => success; non-trivial = first read < 16 bytes or EOF delivered with data or fault"},
+	pb.Register("stream", pb.Options{Base: 5000, Required: []string{"plaintext larger than the copy buffer", "more than 32 KiB handed over in one Write/ReadFrom", "short header read", "EOF with data", "header arrives with EOF", "(0,nil) first read", "I/O fault during encryption", "I/O fault during decryption"},
+		Rule: "EncryptStreamTo/DecryptStreamTo through readers following drawn chunk plans (1-byte reads, 15/16/17-byte first chunk, (0,nil) reads, data+EOF together) or *bytes.Reader / *bytes.Buffer (io.WriterTo / io.ReaderFrom: everything in one call) and recording writers; injected I/O errors at a drawn byte on each of the four sides; oracles: header+AES-256-CTR reference, round trip equality, fault => error (never a panic), no fault => success; non-trivial = first read < 16 bytes or EOF delivered with data or fault"},
 		genStream, runStream)
 	pb.Register("stream_bad", pb.Options{Base: 3000, Required: []string{"truncated header"},
 		Rule: "DecryptStreamTo over arbitrary/truncated streams 0..40 bytes under chunk plans; oracle error <=> no complete Salted__ header; non-trivial = non-empty"},
